@@ -186,6 +186,16 @@ def check_case(run, case, tier='quick'):
             if len(U) < 3:
                 continue
             session.drop_session(sn)
+            if rng.random() < 0.4:
+                # history: an older session of the same name, run with the opposite flags and quit after its first pre-terminal, has left its save file behind;
+                # the new session (no --load) replaces it and owes it nothing
+                f0 = {}
+                def trig0(ev, ctx, f0=f0):
+                    if ev[0] == 'POP' and ev[1] == 1 and 'x' not in f0:
+                        f0['x'] = ctx.deliver('q')
+                old = session.run_main(['-r', name, '-s', sn] + ([] if sb else ['--skip_brute']) + ([] if sc else ['--all_lower']), trigger=trig0)
+                if session.session_files(sn) and os.path.exists(session.session_files(sn)[0]):
+                    run.ev('new_sessions_started_over_a_stale_save_file_with_other_flags')
             k = rng.randint(1, len(U) - 1)
             fired = {}
             def trig(ev, ctx, k=k, fired=fired):
